@@ -91,7 +91,13 @@ class SchemaGen:
                     continue
                 seen.add(c)
                 vals.append(v)
-            s.add(e, {"kind": "enum", "values": vals})
+            ed = {"kind": "enum", "values": vals}
+            if deprecations:
+                # deprecated enum values stay values: the server still sends and accepts them
+                dv = {v: {"reason": r.choice(DEPRECATION_REASONS), "block": False} for v in vals if r.random() < deprecations / 2}
+                if dv:
+                    ed["deprecated_values"] = dv
+            s.add(e, ed)
         self.outs = objs + ifaces + unions
         self.leaves = BUILTIN_SCALARS + scalars + enums
         self.in_leaves = BUILTIN_SCALARS + scalars + enums
